@@ -33,6 +33,7 @@ type task struct {
 	quiescing  bool
 	savedFrame *frame
 	savedDepth int
+	vc         vclock // happens-before clock (race detection)
 }
 
 type vtimer struct {
@@ -42,6 +43,7 @@ type vtimer struct {
 	deadline int64
 	fn       value // AfterFunc callback
 	seq      int
+	vc       vclock // clock of the task that armed the timer
 }
 
 type scheduler struct {
@@ -99,6 +101,10 @@ func (s *scheduler) spawn(fr *frame, instr *ssa.Go, fn value, args []value) {
 	s.tasks = append(s.tasks, t)
 	pos := instr.Pos()
 	s.note("task %d spawns task %d at %s", s.cur.id, t.id, s.i.pos(pos))
+	if s.i.race != nil {
+		s.i.hbFork(*s.i.hbClock(s.cur), t)
+		s.i.hbTick(s.cur)
+	}
 	s.wg.Add(1)
 	i := s.i
 	go func() {
@@ -350,6 +356,7 @@ func (s *scheduler) send(ch *vchan, v value) {
 		}
 		if len(ch.buf) < ch.cap {
 			ch.buf = append(ch.buf, copyVal(v))
+			s.i.hbChanSendBuf(s.cur, ch)
 			return
 		}
 		if ch.cap == 0 {
@@ -373,6 +380,14 @@ func (s *scheduler) send(ch *vchan, v value) {
 }
 
 func (s *scheduler) takeFromSendq(ch *vchan) (value, bool) {
+	w := s.takeWaitFromSendq(ch)
+	if w == nil {
+		return nil, false
+	}
+	return w.v, true
+}
+
+func (s *scheduler) takeWaitFromSendq(ch *vchan) *sendWait {
 	for len(ch.sendq) > 0 {
 		w := ch.sendq[0]
 		ch.sendq = ch.sendq[1:]
@@ -386,9 +401,9 @@ func (s *scheduler) takeFromSendq(ch *vchan) (value, bool) {
 			w.sel.chosen = w.idx
 		}
 		w.done = true
-		return w.v, true
+		return w
 	}
-	return nil, false
+	return nil
 }
 
 func (s *scheduler) recvNow(ch *vchan) (value, bool) {
@@ -396,16 +411,20 @@ func (s *scheduler) recvNow(ch *vchan) (value, bool) {
 		v := ch.buf[0]
 		ch.buf = ch.buf[1:]
 		// Go runtime semantics: a receive from a full buffer immediately refills it from a parked sender
+		s.i.hbChanRecvBuf(s.cur, ch)
 		if ch.timer == nil {
-			if w, ok := s.takeFromSendq(ch); ok {
-				ch.buf = append(ch.buf, w)
+			if w := s.takeWaitFromSendq(ch); w != nil {
+				ch.buf = append(ch.buf, w.v)
+				s.i.hbChanSendBuf(w.t, ch)
 			}
 		}
 		return v, true
 	}
-	if v, ok := s.takeFromSendq(ch); ok {
-		return v, true
+	if w := s.takeWaitFromSendq(ch); w != nil {
+		s.i.hbChanHandoff(w.t, s.cur)
+		return w.v, true
 	}
+	s.i.hbAcquire(s.cur, chanClose{ch})
 	return nil, false // closed
 }
 
@@ -422,6 +441,7 @@ func (s *scheduler) recv(ch *vchan) (value, bool) {
 
 func (s *scheduler) sendNow(ch *vchan, v value) {
 	ch.buf = append(ch.buf, copyVal(v))
+	s.i.hbChanSendBuf(s.cur, ch)
 }
 
 func (s *scheduler) closed(ch *vchan) {}
